@@ -13,6 +13,35 @@ CLAIMED = {
              technique='Coq proof over regenerated CExpr terms (verified symbolic bit analysis + vm_compute), differential tie',
              ref='DESIGN.md section 4 C13'),
 }
+FIELD_NOTE = ('Trusts Coq kernel + vm_compute, translator T1 (clang AST shapes + gcc-compiled probes; cross-checked on every run by executing every '
+              'generated accessor record against the compiled function), the hand-written model of the Avtp_GetField/Avtp_SetField loops '
+              '(tied by differential execution on all 2080 descriptor shapes), Spec.v as transcription of the standard. '
+              'Print Assumptions: closed under the global context.')
+CLAIMED.update({
+ 'C01': dict(text='Theorem C01_generic: for every descriptor the reader accepts (offset 0..31, width 0..64), every start quadlet 0..255, every buffer '
+                  'content and both host byte orders the modelled Avtp_GetField returns exactly the field\'s wire bits (symbolic-word sweep over all 2080 '
+                  'shapes by vm_compute + verified soundness lemmas + relation lemma by induction on the loop). Theorem C01_fields: for all 23 formats, '
+                  'all named fields, by-identifier reader and dedicated getter (records regenerated from the sources each run) the result is the complete '
+                  'value of the bit range Spec.v assigns (return type wide enough), for every buffer of at least the header length.',
+             note=FIELD_NOTE, technique='Coq proof (symbolic sweep lifted to all contents) over regenerated tables/accessor records; differential tie + reference search',
+             ref='DESIGN.md section 4 C01'),
+ 'C02': dict(text='Theorem C02_generic / C02_fields: the modelled Avtp_SetField and every by-identifier writer / dedicated setter replace exactly the '
+                  'field\'s bits by v mod 2^width (bit-for-bit equal to the reference Spec.spec_insert), keep the length, leave bytes of untouched quadlets '
+                  'literally unchanged, for every prior content, every value and both byte orders; dedicated setters carry every value that fits; '
+                  'read-after-write corollary.',
+             note=FIELD_NOTE, technique='Coq proof (symbolic sweep lifted to all contents and values) over regenerated records; differential tie + reference search',
+             ref='DESIGN.md section 4 C02'),
+ 'C03': dict(text='Theorems C03_sizes (header-length macro = sizeof = offsetof(payload) = wire header size, multiple of 4, from gcc-compiled probes '
+                  're-measured each run) and C03_exact_buffer_* (every reader/writer/initialiser returns normally - never the model\'s OOB outcome - on any '
+                  'buffer of exactly the header length and changes nothing at or after it). Tie/search: every accessor on exact-extent heap blocks under ASan.',
+             note=FIELD_NOTE, technique='Coq proof over regenerated tables and probe facts; exact-extent sanitizer runs as tie and search',
+             ref='DESIGN.md section 4 C03'),
+ 'C04': dict(text='Theorem C04_init: for every initialiser named by Spec.v and every prior buffer, the modelled initialiser (op list regenerated from its '
+                  'AST: memset size, setter calls, constants) yields the canonical header of Spec.v bit for bit, leaves every byte behind the header '
+                  'literally unchanged, ignores the old header content; C04_idempotent; null pdu untouched.',
+             note=FIELD_NOTE, technique='Coq proof by tracked execution of regenerated initialiser op lists; differential tie + reference search',
+             ref='DESIGN.md section 4 C04'),
+})
 ALL = ['C%02d' % i for i in range(1, 21)]
 def main():
     checks = []
